@@ -101,7 +101,7 @@ Proof.
   all: match goal with G : _ |- _ => progress pcs G end.
   all: try rewrite E in I3; try rewrite E in I4; cbn [is_co hand_ok] in I3, I4; try specialize (I3 eq_refl).
   all: cbn [proj] in S; unfold ctl; rewrite ?E.
-  - (* LPoll *) subst s'. destruct (evfd l w || io); lsimp; rewrite upd_eq; cbn; auto.
+  - (* LPoll *) subst s'. destruct (evfd l w || io || is_zero (tmo l w)); lsimp; rewrite upd_eq; cbn; auto.
   - subst s'. lsimp; rewrite upd_eq; cbn; auto.
   - subst s'. lsimp; rewrite upd_eq; cbn; auto.
   - (* LIoTake *) apply step_takeslot in S. destruct S as (_ & H1 & _ & _ & H2 & H3 & _). rewrite I4 in H1.
@@ -131,7 +131,7 @@ Proof.
     rewrite H2. lsimp; rewrite upd_eq; cbn; repeat split; auto. discriminate.
   - (* LCoRet *) subst s'. apply andb_true_iff in G1. destruct G1 as [G1 G2].
     destruct (stk (base l) w); [|discriminate G1]. destruct (hand (base l) w); [|discriminate G2].
-    destruct r; lsimp; rewrite upd_eq; cbn; auto.
+    destruct r; try destruct (budgeted P); lsimp; rewrite ?upd_eq; dmatch; cbn; auto.
   - (* LHas *) subst s'. destruct (lq (base l) w); cbn [is_nil]; lsimp; rewrite upd_eq; cbn; auto.
   - (* LStGrab *) rewrite E in S. apply step_grab in S. destruct S as (_ & c & _ & _ & _ & H2 & H3 & _). rewrite H2, H3.
     unfold taken; dmatch; lsimp; rewrite E; cbn; repeat split; auto; left; rewrite <- I1; apply Nat.ltb_lt; assumption.
